@@ -12,6 +12,7 @@ import (
 	"compress/zlib"
 	"encoding/json"
 	"fmt"
+	mcnet "github.com/Tnze/go-mc/net"
 	"io"
 	"math/rand"
 	"time"
@@ -126,12 +127,25 @@ func framePayload(rng *rand.Rand, n int, zero bool) []byte {
 func frameStream(tr *vk.Trace, rng *rand.Rand, thr int, st []frameStim, scn int) {
 	tr.Add(map[string]any{"k": "reset", "thr": thr, "scn": scn})
 	var wire bytes.Buffer
+	// every other scenario goes through the Conn entry points (SetThreshold, WritePacket, ReadPacket) instead of
+	// Packet.Pack / UnPack: the same setting must mean the same frames
+	var conn *mcnet.Conn
+	if scn%2 == 1 {
+		conn = mcnet.WrapConn(scriptedConn{Reader: &wire, w: &wire})
+		conn.SetThreshold(thr)
+	}
 	for _, s := range st {
 		data := framePayload(rng, s.N, s.Zero)
 		p := pk.Packet{ID: s.ID, Data: data}
 		before := wire.Len()
 		var err error
-		pan, _ := catch(func() { err = p.Pack(&wire, thr) })
+		pan, _ := catch(func() {
+			if conn != nil {
+				err = conn.WritePacket(p)
+			} else {
+				err = p.Pack(&wire, thr)
+			}
+		})
 		out := wire.Bytes()[before:]
 		f, fsha, total, parsed := projectFrame(out, thr)
 		if total != len(out) {
@@ -152,7 +166,13 @@ func frameStream(tr *vk.Trace, rng *rand.Rand, thr int, st []frameStim, scn int)
 			dst = &pk.Packet{}
 		}
 		var err error
-		pan, _ := catch(func() { err = dst.UnPack(&wire, thr) })
+		pan, _ := catch(func() {
+			if conn != nil {
+				err = conn.ReadPacket(dst)
+			} else {
+				err = dst.UnPack(&wire, thr)
+			}
+		})
 		tr.Add(map[string]any{"k": "unpack", "scn": scn, "id": int(dst.ID), "n": len(dst.Data), "sha": sha(dst.Data), "err": err != nil,
 			"consumed": before - wire.Len(), "panicked": pan})
 		if err != nil || pan {
